@@ -568,6 +568,9 @@ def check_handshake(P, R):
 
 
 def check(P, R, tier):
+    import diffout
+    nout = diffout.run_parallel(R, P, "RF2-out", jobs=8)
+    R.floor("RF2-out", "decoded (pair of inputs, format) points of what ddiff prints", nout, 6000)
     check_handshake(P, R)
     tu = P.tu("ddiff-ddiff.o")
     us, blocks = check_cascade(P, R, tu)
